@@ -351,6 +351,13 @@ EXTRA_TEXT = {
         "quick, 20 643 thorough, executed forward and in reverse), the codecs are specified as PURE functions (CodecHistory refined by CodecHistoryImpl "
         "with decimal.go's power table as memo; eight named deviations refuted) and TLC-generated call histories are replayed each in one fresh process; "
         "seeded inputs and every single-character change of each address judged by TLC (NumCodecTrace).",
+ "C12": " Extension xscript (spec/vmxref, harness/c12xscript): executions spanning SEVERAL scripts in one VM - VMXRef.tla models vm.go at script boundaries over "
+        "VMRef's reference-counted heap (loading a callee incl. stack sharing, internal calls, RET with the return-count check and the uncounted move of return "
+        "values, unloadContext's static-slot rule, frame-by-frame exception unwinding across script contexts), judged by VMLimits plus UnloadRule; the tree's own shape "
+        "(stacks of unwound script contexts stay counted: listed finding 'abandoned-stack') and the released-stack variant are both checked, six named deviations "
+        "refuted (up to 661k states); transition covers and simulations realised as straight-line scripts with exact counter predictions, seeded random multi-script "
+        "programs incl. fills up to the 2048 limit, hand-assembled self-recursive scripts, and the same schedules as deployed contracts through System.Contract.Call; "
+        "VMXRefTrace.tla judges every per-instruction observation (counter vs a real walk over every context's stack, slots and arguments).",
  "C18": " Extension keys (spec/keys, harness/c18keys): KeyAlgebra.tla - 11 sorts, 27 operations over uninterpreted primitives with an outcome class and normal "
         "form per term and the laws (sign/verify soundness incl. altered signatures, Dec(Enc(x)) = x for public / private keys, WIF and NEP-2, NEP-2 opens exactly for the "
         "NFC class of its passphrase, mangled inputs refused or decoded to something else, verification script / script hash / address agree); every term with <= 5 "
